@@ -150,6 +150,9 @@ struct Faults {
     kinds: HashMap<(usize, usize), io::ErrorKind>,
     /// keys are the lines of a text read through sux's `LineLender`
     lines: bool,
+    /// (pass, idx) of key read faults that strike in the middle of line idx
+    /// rather than at its first byte (`"mid": true`, `ksrc: "lines"` only)
+    mid: HashSet<(usize, usize)>,
 }
 
 impl Faults {
@@ -172,6 +175,9 @@ impl Faults {
                     };
                     if src == KEY {
                         f.kinds.insert((get_usize(x, "pass"), get_usize(x, "idx")), kind);
+                        if x.get("mid").and_then(|v| v.as_bool()).unwrap_or(false) {
+                            f.mid.insert((get_usize(x, "pass"), get_usize(x, "idx")));
+                        }
                     }
                 }
             }
@@ -206,7 +212,10 @@ impl FailRead {
         let mut best: (usize, Option<(usize, usize)>) = (self.data.len(), None);
         for &(src, p, i) in self.faults.reads.iter() {
             if src == KEY && p == st.pass && !st.fired.contains(&(p, i)) && i < self.starts.len() {
-                let off = self.starts[i];
+                let mut off = self.starts[i];
+                if self.faults.mid.contains(&(p, i)) && i + 1 < self.starts.len() {
+                    off += (self.starts[i + 1] - off) / 2;
+                }
                 if off >= self.pos && (off < best.0 || (off == best.0 && best.1.is_none())) {
                     best = (off, Some((p, i)));
                 }
